@@ -596,3 +596,72 @@ func allFuncsOf(pkg *ssa.Package) map[*ssa.Function]bool {
 	}
 	return out
 }
+
+// ReachingStore returns the value of the store to local a that reaches instruction at on every
+// path: the last store before it in its block, or in the chain of unique predecessors. The walk gives
+// up at a block with several predecessors and at any call when the local is shared with a closure that is
+// not merely deferred (such a closure could write it in between).
+func ReachingStore(at ssa.Instruction, a *ssa.Alloc) ssa.Value {
+	v := reachingStore(at, a)
+	for n := 0; v != nil && n < 4; n++ {
+		// "return err" with a named result err: the stored value is itself a load of the local
+		u, isLoad := v.(*ssa.UnOp)
+		if !isLoad || u.Op != token.MUL {
+			break
+		}
+		a2, isLocal := u.X.(*ssa.Alloc)
+		if !isLocal {
+			break
+		}
+		w := reachingStore(u, a2)
+		if w == nil {
+			break
+		}
+		v = w
+	}
+	return v
+}
+
+func reachingStore(at ssa.Instruction, a *ssa.Alloc) ssa.Value {
+	shared := false
+	for _, r := range Referrers(a) {
+		switch x := r.(type) {
+		case *ssa.Store:
+			if x.Addr != ssa.Value(a) {
+				shared = true
+			}
+		case *ssa.UnOp:
+		case *ssa.MakeClosure:
+			for _, u := range Referrers(x) {
+				if _, isDefer := u.(*ssa.Defer); !isDefer {
+					shared = true
+				}
+			}
+		case *ssa.DebugRef:
+		default:
+			shared = true
+		}
+	}
+	b := at.Block()
+	i := InstrIndex(at) - 1
+	for n := 0; n < 16; n++ {
+		for ; i >= 0; i-- {
+			switch x := b.Instrs[i].(type) {
+			case *ssa.Store:
+				if x.Addr == ssa.Value(a) {
+					return x.Val
+				}
+			case ssa.CallInstruction:
+				if _, isDefer := x.(*ssa.Defer); !isDefer && shared {
+					return nil
+				}
+			}
+		}
+		if len(b.Preds) != 1 {
+			return nil
+		}
+		b = b.Preds[0]
+		i = len(b.Instrs) - 1
+	}
+	return nil
+}
